@@ -1,8 +1,11 @@
 package main
 
 import (
+	"io"
+	"os"
 	"reflect"
 	"strings"
+	"sync"
 
 	v1 "github.com/keep94/sqroot"
 	v2 "github.com/keep94/sqroot/v2"
@@ -168,7 +171,59 @@ func runSprint(c *Case) []string {
 	if sb.String() != s || n != len(s) || err != nil {
 		out = append(out, "FPRINT-DIFFERS")
 	}
+	// Print / Write (standard output) print the same text with the same options
+	if len(s)%3 == 0 {
+		var pn int
+		var perr error
+		text := captureStdout(func() {
+			switch c.Ver {
+			case "v1":
+				pn, perr = v1.Print(v.s1, pos1of(p.rng), opts1(p)...)
+			case "v2":
+				pn, perr = v2.Print(v.s2, pos2of(p.rng), opts2(p)...)
+			default:
+				if p.fn == 1 {
+					pn, perr = v3.Write(v.fin3(), opts3(p)...)
+				} else {
+					pn, perr = v3.Print(v.s3, pos3of(p.rng), opts3(p)...)
+				}
+			}
+		})
+		if text != s || pn != len(s) || perr != nil {
+			out = append(out, "PRINT-DIFFERS")
+		}
+	}
 	return out
+}
+
+var stdoutMu sync.Mutex
+
+// captureStdout runs f with os.Stdout redirected into a pipe and returns what was written (one capture at a time;
+// the driver's own output goes through a writer created from the original os.Stdout).
+func captureStdout(f func()) string {
+	stdoutMu.Lock()
+	defer stdoutMu.Unlock()
+	r, w, err := os.Pipe()
+	if err != nil {
+		return "PIPE-ERROR"
+	}
+	old := os.Stdout
+	os.Stdout = w
+	done := make(chan string, 1)
+	go func() {
+		b, _ := io.ReadAll(r)
+		done <- string(b)
+	}()
+	func() {
+		defer func() {
+			os.Stdout = old
+			w.Close()
+		}()
+		f()
+	}()
+	text := <-done
+	r.Close()
+	return text
 }
 
 var missingRunes = []int{'.', '.', '.', '-', '_', 0xB7, 0xD7, 0xFF, 0x100, 0x7FF, 0x800, 0x2588, 0xFFFD, 0x1F600, 0x10FFFF, 0xD800, -1, 0x110000}
